@@ -11,6 +11,12 @@ From GVgen Require Import Gen_Engine.
 Lemma gen_is_hand : forall e, gen e = hand e.
 Proof. intros []; reflexivity. Qed.
 
+(* g.addResult is one locked store returnResult[name] = value, GetRulesResultMap hands back that map, and every
+   call site passes the name of the rule just executed together with the value it returned (the translator
+   classifies any other call as IUnknown, which gen_is_hand rejects) *)
+Lemma result_helpers_ok : gen_result_helpers_ok = true.
+Proof. reflexivity. Qed.
+
 Theorem gen_sound : forall e c, run_prog (gen e) c = spec_outcome e c.
 Proof. intros e c. rewrite gen_is_hand. apply hand_sound. Qed.
 Print Assumptions gen_sound.
